@@ -421,6 +421,7 @@ func init() {
 			}
 			var res CrashResult
 			json.Unmarshal(r.Res, &res)
+			attachItem(res.Viol, "crash", raw[r.Index])
 			tot.Points += res.Points
 			tot.Steps += res.Steps
 			tot.Viol = append(tot.Viol, res.Viol...)
